@@ -116,6 +116,8 @@ def gen_rounds(seed, tier, run):
     del _law_failures[:]
     out = []
     shs = list(shapes(4, 3)) + list(shapes(5, 2, min_rank=5))
+    # long lanes: a chunked / pairwise / early-exit reduction must not lose a tail
+    shs += [[8], [17], [33], [64], [100], [2, 17], [17, 2], [3, 33], [33, 3], [2, 9, 2], [5, 7]]
     if tier == "thorough":
         shs += [rand_shape(rng, 5, (1, 2, 3, 4)) for _ in range(300)]
     for k, sh in enumerate(shs):
